@@ -351,7 +351,54 @@ fn edge_stream(cx: &mut Ctx, i: usize) -> (Vec<u8>, u128, String) {
 // ---------------------------------------------------------------------------------------
 // C04: payload limits x declared lengths; line lengths x offsets.
 // ---------------------------------------------------------------------------------------
+/// set_payload_max_size on a live connection: the limit in force when a header block is COMPLETED decides,
+/// wherever in the stream the call is made (before the request, after its request line, inside its header
+/// block, while its body streams in, between two requests).
+pub fn limit_changes(cx: &mut Ctx) {
+    for &(n, l1, l2) in &[(3u128, 2u128, 8u128), (3, 8, 2), (10, 9, 10), (10, 10, 9), (3, 0, 3), (40, 100, 39), (40, 39, 100)] {
+        let mut s: Vec<u8> = vec![];
+        let mut marks: Vec<usize> = vec![0];
+        s.extend(b"PUT /a HTTP/1.1\r\n");
+        marks.push(s.len());
+        s.extend(b"X-A: b\r\n");
+        marks.push(s.len() - 4);
+        s.extend(format!("Content-Length: {}\r\n", n).as_bytes());
+        marks.push(s.len());
+        s.extend(b"\r\n");
+        marks.push(s.len());
+        s.extend((0..n).map(|i| b'a' + (i % 26) as u8));
+        marks.push(s.len() - 1);
+        marks.push(s.len());
+        s.extend(b"GET /b HTTP/1.1\r\n\r\n");
+        marks.push(s.len());
+        s.extend(format!("PUT /c HTTP/1.0\r\nContent-Length: {}\r\n", n).as_bytes());
+        marks.push(s.len());
+        s.extend(b"\r\n");
+        s.extend((0..n).map(|i| b'0' + (i % 10) as u8));
+        marks.dedup();
+        for (k, &at) in marks.iter().enumerate() {
+            // reads cut at every mark; the limit changes right before the read that starts at `at`
+            let mut evs = vec![];
+            let mut last = 0;
+            for &m in marks.iter().skip(1).chain(std::iter::once(&s.len())) {
+                if last == at {
+                    evs.push(json!({"e": "setlimit", "limit": obs::digits(l2)}));
+                }
+                if m > last {
+                    evs.push(rd(&s[last..m]));
+                }
+                last = m;
+            }
+            let _ = k;
+            let mut sc = script(l1, &["res", "popped", "pending"], 0, evs, "limit_change");
+            sc["stop_on_error"] = json!(true);
+            cx.push(sc);
+        }
+    }
+}
+
 pub fn c04(cx: &mut Ctx) {
+    limit_changes(cx);
     let limits: Vec<u128> = vec![0, 1, 2, 3, 4, 5, 6, 7, 8, 1023, 1024, 1025, 51199, 51200, 51201, 4294967295];
     for &l in &limits {
         let mut ns: Vec<u128> = vec![l, l + 1];
